@@ -190,3 +190,10 @@ fn visit_enum_tagged<'de>(visitor: MapVis, ea: TaggedEA<'de>) -> (r: Result<MapV
 { unimplemented!() }
 /// `s.clone()` on a String
 #[verifier::external_body] fn string_clone(s: &String) -> (r: String) ensures r@ == s@ { s.clone() }
+
+// ---- attach_alias_locations_if_missing ----
+/// `Error::location()`: the location an error already carries (a big or-pattern match over all variants; assumed)
+pub uninterp spec fn err_loc(e: Error) -> Option<Location>;
+/// `err.to_string()` (Display of the crate's Error; text only)
+#[verifier::external_body]
+fn error_to_string(e: &Error) -> (r: String) { unimplemented!() }
